@@ -462,6 +462,7 @@ func engExec(c *runCtx, ops []string) {
 	}()
 	// shadow of what the engine acknowledged (for the history-level oracles)
 	removedAck := map[int]bool{}
+	forcedDel := map[int]bool{} // a forced removal (Engine.Delete/Drop) was issued since the object was last stored
 	type lockRec struct{ lock, target, exp int }
 	var locks []lockRec // locks the engine accepted for an object it stored
 	epoch := 0
@@ -479,6 +480,7 @@ func engExec(c *runCtx, ops []string) {
 			}
 			w = newEngWorld(n, uint32(o.int("thr")))
 			removedAck = map[int]bool{}
+			forcedDel = map[int]bool{}
 			locks, epoch = nil, 0
 			c.emit(line, "=> ok | "+w.dump(w.view()))
 			continue
@@ -502,6 +504,7 @@ func engExec(c *runCtx, ops []string) {
 			}
 			if err == nil && o.kv["k"] == "reg" {
 				delete(removedAck, o.int("o")) // stored (again): the earlier removal no longer describes the state
+				delete(forcedDel, o.int("o"))
 			}
 			if err == nil && o.kv["k"] == "lock" {
 				t, stored := o.int("t"), false
@@ -510,7 +513,8 @@ func engExec(c *runCtx, ops []string) {
 				}
 				// an object whose removal the engine acknowledged (tombstone, forced removal) and that nobody stored
 				// again is not "an object it stores", even while its bytes wait for the collector
-				if stored && t >= 1 && t <= engNO && !removedAck[t] {
+				// (a forced removal overrides locks by design, also the locks that arrive before the collector ran)
+				if stored && t >= 1 && t <= engNO && !removedAck[t] && !forcedDel[t] {
 					locks = append(locks, lockRec{o.int("o"), t, o.int("exp")})
 				}
 			}
@@ -534,6 +538,7 @@ func engExec(c *runCtx, ops []string) {
 			err := w.e.Delete(c.ctx(), numAddr(1, o.int("o")), engine.GarbageMarkDefault)
 			res = engErrClass(err)
 			forced := o.int("o") // a forced removal overrides locks by design
+			forcedDel[forced] = true
 			locks = slicesDeleteFunc(locks, func(l lockRec) bool { return l.lock == forced || l.target == forced })
 			if err == nil {
 				id := o.int("o")
@@ -551,6 +556,7 @@ func engExec(c *runCtx, ops []string) {
 			err := w.e.Drop(c.ctx(), numAddr(1, o.int("o")))
 			res = engErrClass(err)
 			forced := o.int("o")
+			forcedDel[forced] = true
 			locks = slicesDeleteFunc(locks, func(l lockRec) bool { return l.lock == forced || l.target == forced })
 		case "islocked":
 			l, err := w.e.IsLocked(c.ctx(), numAddr(1, o.int("o")))
